@@ -136,6 +136,16 @@ pub fn gen(ctx: &mut Ctx) {
         ("https://app.localhost", None),
         ("http://localhost.example.com", Some("localhost.example.com")),
         ("wss://www.example.com", Some("example.com")),
+        ("https://www.example.com", Some("EXAMPLE.COM")),
+        ("https://www.example.com", Some("Example.com")),
+        ("https://www.example.com", Some("\u{ff45}xample.com")),
+        ("https://www.example.com", Some("example\u{3002}com")),
+        ("https://shop.xn--bcher-kva.example", Some("b\u{fc}cher.example")),
+        ("https://shop.xn--bcher-kva.example", Some("xn--bcher-kva.example")),
+        ("http://example.com", None),
+        ("ftp://www.example.com", Some("example.com")),
+        ("https://www.example.com./", None),
+        ("https://www.example.com./", Some("example.com")),
         ("https://192.168.1.10", Some("1.10")),
     ];
     for (u, rp) in &corpus {
@@ -180,8 +190,14 @@ pub fn gen(ctx: &mut Ctx) {
         let h: String = match &o { Org::Web(u) => u.domain().unwrap_or("").to_string(), Org::Android(h) => h.clone() };
         // RP ID
         let labels: Vec<&str> = h.split('.').collect();
-        let rp: Option<String> = match ctx.rng.below(12) {
+        let rp: Option<String> = match ctx.rng.below(14) {
             0 | 1 => None,
+            // the host or a label suffix of it spelled differently: another case, a fullwidth letter, an ideographic or
+            // fullwidth full stop for a dot, the Unicode form of a punycode label (an RP ID is compared as supplied)
+            12 | 13 => { let k = ctx.rng.below(labels.len() as u64) as usize; let sfx = labels[k..].join(".");
+                Some(match ctx.rng.below(6) { 0 => sfx.to_uppercase(), 1 => { let mut c = sfx.chars(); match c.next() { Some(f) => f.to_uppercase().collect::<String>() + c.as_str(), None => sfx.clone() } },
+                    2 => sfx.replacen('.', "\u{3002}", 1), 3 => sfx.replacen('.', "\u{ff0e}", 1), 4 => sfx.replacen('e', "\u{ff45}", 1),
+                    _ => idna::domain_to_unicode(&sfx).0 }) }
             2 => Some(h.clone()),
             3 | 4 => { let k = ctx.rng.below(labels.len() as u64) as usize; Some(labels[k..].join(".")) }       // label-aligned suffix
             5 => { if h.len() > 1 { let k = ctx.rng.range(1, (h.len() - 1) as u64) as usize; if h.is_char_boundary(k) { Some(h[k..].to_string()) } else { None } } else { Some(String::new()) } } // character suffix
@@ -198,6 +214,26 @@ pub fn gen(ctx: &mut Ctx) {
         if i % 8 == 0 { let reg = ctx.rng.bool(); e2e(ctx, reg, &o, rp.as_deref(), allow, prov); }
     }
 
+    // ---- labels matched by a wildcard rule that also have rules of their own below them (the rules overlap there)
+    {
+        let wild: Vec<Vec<String>> = rules.iter().filter(|r| r.1 == 2).map(|r| r.0.clone()).collect();
+        for (labels, _) in rules.iter() {
+            // a rule L.X (or deeper) where *.X is a rule
+            if labels.len() < 2 { continue; }
+            let parent = labels[labels.len().saturating_sub(labels.len() - 1)..].to_vec();
+            if wild.iter().any(|w| *w == parent) || (labels.len() > 2 && wild.iter().any(|w| *w == labels[2..].to_vec())) {
+                let name = labels.join(".");
+                for h in [name.clone(), format!("{}.{}", rand_label(ctx), name)] {
+                    if let Ok(u) = Url::parse(&format!("https://{}", h)) {
+                        let o = Org::Web(u);
+                        check(ctx, &o, None, false, Prov::Default);
+                        check(ctx, &o, Some(&name), false, Prov::Default);
+                    }
+                }
+                ctx.stat("rp.wildcard_with_rules_below");
+            }
+        }
+    }
     // ---- every rule of the list as host and as RP ID of host + 1 label (thorough: all; quick: a seeded tenth)
     let stride = if ctx.thorough { 1 } else { 10 };
     let off = ctx.rng.below(stride as u64) as usize;
